@@ -11,6 +11,7 @@ import (
 	"testing"
 
 	"lunar/engine/actions"
+	"lunar/engine/config"
 	lunar_messages "lunar/engine/messages"
 	"lunar/engine/routing"
 	"verifharness/mc"
@@ -144,6 +145,15 @@ func checkReq(idx []int) (verdict string, outcome string) {
 		acts[i] = reqAlphabet[k].mk()
 		snap[i] = reqAlphabet[k].mk()
 	}
+	// the header map objects the producers handed over (they stay the producers')
+	origMaps := map[int]map[string]string{}
+	for i, a := range acts {
+		if hs, ok := reqHeadersOf(a); ok && hs != nil {
+			origMaps[i] = hs
+		} else if e, ok := a.(*actions.EarlyResponseAction); ok && e.Headers != nil {
+			origMaps[i] = e.Headers
+		}
+	}
 	out := vars(routing.VerifReqActions(newReqArgs(), acts))
 
 	firstEarly := -1
@@ -208,7 +218,21 @@ func checkReq(idx []int) (verdict string, outcome string) {
 			outcome = "genreq"
 		}
 	}
-	// aliasing: folding the same objects a second time must give the same encoding
+	// aliasing: the fold must not write into the actions it combines (their producers may
+	// hand the same header map out again for the next request, whose result would then carry
+	// this request's edits), ...
+	for i := range acts {
+		if m, ok := origMaps[i]; ok {
+			want, _ := reqHeadersOf(snap[i])
+			if e, isEarly := snap[i].(*actions.EarlyResponseAction); isEarly {
+				want = e.Headers
+			}
+			if !reflect.DeepEqual(m, want) {
+				return fmt.Sprintf("input-mutated: the fold wrote into the header map of input action %d: now %v, was %v", i, m, want), outcome
+			}
+		}
+	}
+	// ... and folding the same objects a second time must give the same encoding
 	out2 := vars(routing.VerifReqActions(newReqArgs(), acts))
 	if !reflect.DeepEqual(norm(out), norm(out2)) {
 		return fmt.Sprintf("folding the same action objects twice gives different results: %v vs %v", norm(out), norm(out2)), outcome
@@ -361,6 +385,25 @@ type replay struct {
 func TestCheck(t *testing.T) {
 	r := mc.New("C07", "exploration")
 	if f := mc.ReplayFile(); f != "" {
+		var cr chainReplay
+		if err := mc.LoadReplay(f, &cr); err == nil && cr.Family == "chain" {
+			var rs []config.ScopedRemedy
+			for _, n := range cr.Chain {
+				for _, l := range chainAlphabet() {
+					if l.name == n {
+						rs = append(rs, l.rem)
+					}
+				}
+			}
+			got, err := runChain(rs)
+			fmt.Printf("replay chain %v -> %T %+v err=%v\n", cr.Chain, got, got, err)
+			rr := mc.New("C07", "exploration")
+			chainFamily(t, rr)
+			if rr.NumFindings() > 0 {
+				t.Fail()
+			}
+			return
+		}
 		var rp replay
 		if err := mc.LoadReplay(f, &rp); err != nil {
 			t.Fatal(err)
@@ -378,7 +421,7 @@ func TestCheck(t *testing.T) {
 		return
 	}
 	maxLen := mc.Pick(r, 4, 5)
-	r.Rule = fmt.Sprintf("every sequence of request actions (alphabet %d) and of response actions (alphabet %d) of length 0..%d, simplest first, folded by the real routing.getSPOEReqActions/getSPOERespActions; non-trivial = sequence with >=2 non-no-op actions; distinct = by sequence", len(reqAlphabet), len(respAlphabet), maxLen)
+	r.Rule = fmt.Sprintf("every sequence of request actions (alphabet %d) and of response actions (alphabet %d) of length 0..%d, simplest first, folded by the real routing.getSPOEReqActions/getSPOERespActions; plus every chain of <=%d real remedies (OAuth / API-key / basic authentication / two fixed responses) through the policy-mode runner.runOnRequest; non-trivial = sequence with >=2 non-no-op actions; distinct = by sequence", len(reqAlphabet), len(respAlphabet), maxLen, maxLen)
 	r.Assume("header edits of the statement = HeadersToSet maps; HeadersToRemove of GenerateRequest is not asserted",
 		"for response sequences mixing modifications and retries the statement fixes no winner: only provenance of the result is checked")
 	mc.Sequences(len(reqAlphabet), maxLen, func(idx []int) bool {
@@ -425,5 +468,6 @@ func TestCheck(t *testing.T) {
 		}
 		return true
 	})
+	chainFamily(t, r)
 	r.Finish(t)
 }
